@@ -505,7 +505,20 @@ def fn_method_expectations(I, f, d, eff, O, method_trait, method_impl, mode, fn_
     for a_i in range(len(user_names)):
         for b_i in range(a_i + 1, len(user_names)):
             conds.append(znot(name_eq(user_names[a_i], user_names[b_i])))
-    O.add('C16', f'{tag}:generated-names-pairwise-distinct', zand(*conds) if conds else True, f'names {user_names}')
+    def name_form(k):
+        """how the k-th generated name came about (keys known findings by the kind of collision)"""
+        n = user_names[k]
+        if len(user_names) == len(user_params) and user_params[k].variant == 'Typed':
+            pk = I.unbox(I.f(ex.force_slot(user_params[k].fields, 0), 'pat')).variant
+            if pk != 'Ident':
+                return 'generated-for-a-pattern'
+        if isinstance(n, z3.ExprRef) and n.decl().kind() == z3.Z3_OP_SEQ_CONCAT:
+            return 'renamed-after-the-fn'
+        return 'as-written'
+    for a_i in range(len(user_names)):
+        for b_i in range(a_i + 1, len(user_names)):
+            O.add('C16', f'{tag}:generated-names-pairwise-distinct', znot(name_eq(user_names[a_i], user_names[b_i])),
+                  f'parameters {a_i} and {b_i} of {user_names}', cls='~'.join(sorted([name_form(a_i), name_form(b_i)])))
     for k, n in enumerate(user_names):
         kind = ''
         if len(user_names) == len(user_params) and user_params[k].variant == 'Typed':
@@ -686,6 +699,11 @@ def trait_impl_expectations(I, eff, deps, fns, trait_item, impl_item, attr0, mod
         O.add('C10', 'unimock-test-gated-unless-exported', ziff(ug, znot(eff['export'])), f'gated={ug}')
     if mp:
         O.add('C10', 'mockall-test-gated-unless-exported', ziff(mg, znot(eff['export'])), f'gated={mg}')
+    # C17: the macro variants are option shorthands (`entrait_export(args)` == `entrait(args, export)` unless args sets export, likewise
+    # the unimock variants): the same facts, judged against the effective options (explicit value, else variant fallback, else false)
+    O.add('C17', 'variant-fallbacks-behave-as-the-appended-option', zand(ziff(up, eff['unimock_derive']), ziff(mp, eff['mockall']),
+                                                                       ziff(ug, znot(eff['export'])) if up else True, ziff(mg, znot(eff['export'])) if mp else True),
+          f'unimock emitted={up} gated={ug}, mockall emitted={mp} gated={mg}')
     # no other mock-ish attribute sneaks in
     other = [a for a in trait_item.attrs if not is_known_trait_attr(a)]
     allowed_sub = [I.toks(a)[1][2] for a in sub_attrs if attr_kind(I, a) in ('async_trait', 'automock')]
@@ -772,6 +790,33 @@ def trait_impl_expectations(I, eff, deps, fns, trait_item, impl_item, attr0, mod
             on_headers = any(toks_eq(p, r_) is True for p in preds) and any(toks_eq(p, r_) is True for p in tw)
             on_methods = all(any(toks_eq(w, r_) is True for w in m.where) for m in tm + im) and bool(tm)
             O.add('C03', 'non-dependency-predicate-kept', on_headers or on_methods, f'`{show(r_, 80)}` neither on trait+impl nor on the methods')
+        # ... and what is put on the trait / impl header must be well-scoped there: lifetime parameters stay on the methods, so a
+        # predicate that names one cannot move to a header (E0261).  Precondition: the input itself is well-scoped.
+        def lts(toks):
+            out = set()
+            for t in toks:
+                if t[0] == 'LT' and isinstance(t[1], str):
+                    out.add(t[1])
+                elif t[0] == 'G':
+                    out |= lts(t[2])
+            return out
+        legal_in = True
+        for f in fns:
+            gen_in = I.f(I.f(f, 'fn_sig'), 'generics')
+            declared = {I.toks(gp)[0][1] for gp in I.items(gen_in, 'params') if gp.variant == 'Lifetime'}
+            wc = I.f(gen_in, 'where_clause')
+            if wc.variant == 'Some':
+                for pred in I.items(ex.force_slot(wc.fields, 0), 'predicates'):
+                    if not (lts(I.toks(pred)) - {'static'}) <= declared:
+                        legal_in = False
+        if legal_in:
+            for hname, hdr_generics, hdr_rest in (('trait', trait_item.generics, [x for p_ in trait_item.where for x in p_]),
+                                                  ('impl', gens, [x for p_ in impl_item.where for x in p_])):
+                decl = {g[0][1] for g in hdr_generics if g and g[0][0] == 'LT'}
+                used = (lts(hdr_rest) | lts([x for g in hdr_generics for x in g[1:]])) - {'static'}
+                O.add('C03', f'{hname}-header-names-only-lifetimes-it-declares', used <= decl,
+                      f'the generated {hname} header uses {sorted(used - decl)} which it does not declare (they are parameters of the method)',
+                      cls='lifetime-where-predicate-lifted')
         for p in preds:
             O.add('C04', 'no-undeclared-predicate-on-impl', any(toks_eq(p, r_) is True for r_ in rest), f'`{show(p, 80)}`')
         for p in tw:
@@ -957,6 +1002,23 @@ def input_fn_tokens(I, f):
     return toks
 
 
+def spec_metamorphic(ex, O, out, out2):
+    """C17, stated as it is written: the invocation and its canonical spelling (macro `entrait`, variant fallbacks spelled out,
+    `no_deps = false` / `export = false` dropped) expand to the same tokens, or fail with the same message"""
+    I = In(ex)
+    if out.variant != out2.variant:
+        O.add('C17', 'expansion-invariant-under-option-normalisation', False, f'as written: {out.variant}, canonical spelling: {out2.variant}')
+        return
+    if out.variant == 'Err':
+        m1, m2 = out.fields[0].fields[1], out2.fields[0].fields[1]
+        O.add('C17', 'expansion-invariant-under-option-normalisation', (m1 == m2) if isinstance(m1, str) and isinstance(m2, str) else name_eq(m1, m2), f'`{m1}` vs `{m2}`')
+        return
+    t1 = I.P.flat(out.fields[0].toks)
+    t2 = I.P.flat(out2.fields[0].toks)
+    O.add('C17', 'expansion-invariant-under-option-normalisation', toks_eq(t1, t2),
+          f'as written `{show(t1, 400)}` vs canonical spelling `{show(t2, 400)}`')
+
+
 def spec_fn_mode(ex, variant, attr0, item0, out_value):
     O = Obligations()
     r = spec_fn_like(ex, 'fn', variant, attr0, [item0], out_value, O)
@@ -1030,10 +1092,12 @@ def discharge(pr, obligations, timeout_ms=10000):
     return len(obligations.items), nq, fails, st
 
 
-def classify_failure(prop, name, pr, model):
+def classify_failure(prop, name, pr, model, idx=None):
     """input class of a counterexample, so that a known finding is keyed by the kind of input that fails"""
     O = pr.notes.get('obligations')
-    if O is not None:
+    if O is not None and idx is not None and O.cls.get(idx):
+        return O.cls[idx]
+    if O is not None and idx is None:
         for i, it in enumerate(O.items):
             if it[0] == prop and it[1] == name and O.cls.get(i):
                 return O.cls[i]
@@ -1042,8 +1106,8 @@ def classify_failure(prop, name, pr, model):
     falses = []
     relevant = None
     if O is not None:
-        for it in O.items:
-            if it[0] == prop and it[1] == name and isinstance(it[2], z3.ExprRef):
+        for i_, it in enumerate(O.items):
+            if (i_ == idx if idx is not None else (it[0] == prop and it[1] == name)) and isinstance(it[2], z3.ExprRef):
                 relevant = set()
 
                 def walk(e):
@@ -2002,6 +2066,40 @@ def spec_front_item(ex, what, cells, parsed, out_value):
     if parsed.variant != 'Ok' or out_value.variant != 'Ok':
         return O
     inp = parsed.fields[0]
+    if inp.variant == 'Trait' and what == 'trait':
+        # C09: what is written in front of `trait` (attributes, visibility, `unsafe`) is consumed by Input::parse before it knows
+        # what kind of item follows; the trait handed to the trait back end must still carry all of it
+        pbw = front.PBuf(cells, 0, 'written')
+        w_attrs = []
+        while front.punct_is(ex, front.tok_at(ex, pbw), '#'):
+            w_attrs.append(front.view_tok(front.tok_at(ex, pbw, 1))[2])
+            pbw.pos += 2
+        w_vis = []
+        if front.ident_is(ex, front.tok_at(ex, pbw), 'pub'):
+            w_vis.append(('I', 'pub'))
+            pbw.pos += 1
+            t2 = front.tok_at(ex, pbw)
+            if t2 != front.END and front.tk_group_delim(ex, t2) == '(':
+                w_vis.append(front.view_tok(t2))
+                pbw.pos += 1
+        w_unsafe = front.ident_is(ex, front.tok_at(ex, pbw), 'unsafe')
+        it = inp.fields[0]
+        got_vis = I.toks(it.f('vis'))
+        O.add('C09', 'front:trait-visibility-survives-parsing', toks_eq(got_vis, w_vis), f'written `{show(w_vis)}` parsed `{show(got_vis)}`')
+        O.add('C09', 'front:unsafe-survives-parsing', (it.f('unsafety').variant == 'Some') == bool(w_unsafe), f'written unsafe={w_unsafe}')
+        got_attrs = [I.toks(a)[1][2] for a in it.f('attrs').items]
+        O.add('C09', 'front:trait-attributes-survive-parsing', len(got_attrs) == len(w_attrs) and zand(*[toks_eq(a, b) for a, b in zip(got_attrs, w_attrs)]),
+              f'written {[show(a, 40) for a in w_attrs]} parsed {[show(a, 40) for a in got_attrs]}')
+        # and the emitted trait carries the written visibility (C09 / C13)
+        toks = I.P.flat(out_value.fields[0].toks)
+        try:
+            top = rsview.parse_items(toks)
+            tr = [x for x in top if x.kind == 'trait']
+            if tr:
+                O.add('C09', 'trait-visibility-kept', toks_eq(tr[0].vis, w_vis), f'`{show(tr[0].vis)}` vs written `{show(w_vis)}`')
+        except Exception as e:
+            O.add('C15', 'generated-items-parse', False, f'{type(e).__name__}: {e}')
+        return O
     if inp.variant != 'Fn':
         return O
     # precondition: a legal fn item `attrs* vis? quals fn IDENT (..) [-> T] { .. }` and nothing after it
